@@ -103,6 +103,16 @@ def _add_shared(g: dict, rng: random.Random) -> list[str]:
             g["order"].append(len(g["nodes"]) - 1)
             shared.append("closure_twins")
     if rng.random() < 0.3:
+        avail = [nd for nd in g["nodes"] if nd["kind"] == "fn" and not nd.get("blk") and not nd.get("closure")]
+        if len(avail) >= 2:
+            # two route gates sharing one function, with the SAME declared targets but different fallbacks; the function
+            # answers None, so each gate routes to its own fallback
+            t1, t2 = [x["name"] for x in rng.sample(avail, 2)]
+            for nm, fb in (("sfA", t1), ("sfB", t2)):
+                g["nodes"].append({"kind": "route", "name": nm, "fid": "sf", "params": [], "targets": [t1, t2], "fallback": fb, "default_open": False, "cache": True, "decide": {"op": "const", "value": None}})
+                g["order"].append(len(g["nodes"]) - 1)
+            shared.append("sf")
+    if rng.random() < 0.3:
         # a cacheable node that consumes (mutates in place) a list argument; the history also calls it with the emptied list
         g["nodes"].append({"kind": "fn", "name": "dr", "params": [{"name": "drq"}], "outs": ["dr_o"], "cache": True, "beh": "drain", "beh_param": "drq"})
         g["order"].append(len(g["nodes"]) - 1)
